@@ -778,6 +778,19 @@ impl Shape {
                 }
                 self.clone()
             }
+            // An import is the tuple of the imported file's bindings.
+            (Shape::Import(ImportShape::Resolved(pos, flds)), Shape::Tuple(_)) => {
+                Shape::Tuple(PositionedItem::new(flds.clone(), pos.clone()))
+                    .narrow_cached(right, symbol_table, seen)
+            }
+            (Shape::Tuple(_), Shape::Import(ImportShape::Resolved(pos, flds))) => self.narrow_cached(
+                &Shape::Tuple(PositionedItem::new(flds.clone(), pos.clone())),
+                symbol_table,
+                seen,
+            ),
+            // Nothing is known about the fields of an unresolved one.
+            (Shape::Import(ImportShape::Unresolved(_)), Shape::Tuple(_)) => right.clone(),
+            (Shape::Tuple(_), Shape::Import(ImportShape::Unresolved(_))) => self.clone(),
             _ => Shape::TypeErr(
                 right.pos().clone(),
                 format!(
